@@ -52,6 +52,7 @@ let variant = ref repaired
 let um_set0 = ref true
 let uw_canon = ref true
 let fspec = ref false
+let codes = ref false   (* C07: after a forced call the spec goes on speaking about the result code alone (CodesSpec.v) *)
 let keep_label = ref true
 let rec emit_ms m s = match m, s with
   | [], _ -> ()
@@ -237,17 +238,17 @@ let run_case line =
     (match hd with
      | ["D"; lk; n] ->
        let hs = lk <> "none" in let ops = List.map (qwrap parse_dop) ops in
-       emit_ms (d_trace hs !variant (ni n) ops) (if !fspec then d_fspec_trace hs (ni n) ops else d_spec_trace hs (ni n) ops)
+       emit_ms (d_trace hs !variant (ni n) ops) (if !fspec then d_fspec_trace hs (ni n) ops else if !codes then d_cspec_trace hs (ni n) ops else d_spec_trace hs (ni n) ops)
      | ["U"; lk; n] ->
        let hs = lk <> "none" in let ops = List.map (qwrap parse_uop) ops in
-       emit_ms (u_trace_z hs !variant (ni n) ops) (if !fspec then u_fspec_trace hs (ni n) ops else u_spec_trace hs (ni n) ops)
+       emit_ms (u_trace_z hs !variant (ni n) ops) (if !fspec then u_fspec_trace hs (ni n) ops else if !codes then u_cspec_trace hs (ni n) ops else u_spec_trace hs (ni n) ops)
      | ["DM"; _; n] -> let ops = List.map (qwrap parse_mop) ops in emit_ms (dm_trace_z !variant (ni n) ops) (if !fspec then m_fspec_trace false (ni n) ops else m_spec_trace false (ni n) ops)
      | ["UM"; _; n] -> let ops = List.map (qwrap parse_mop) ops in emit_ms (um_trace_z !variant !um_set0 (ni n) ops) (if !fspec then m_fspec_trace true (ni n) ops else m_spec_trace true (ni n) ops)
      | ["DW"; _; n] -> let ops = List.map (qwrap parse_wop) ops in emit_ms (dw_trace_z !variant (ni n) ops) (if !fspec then w_fspec_trace false (ni n) ops else w_spec_trace false (ni n) ops)
      | ["UW"; _; n] -> let ops = List.map (qwrap parse_wop) ops in emit_ms (uw_trace_z !variant !uw_canon (ni n) ops) (if !fspec then w_fspec_trace true (ni n) ops else w_spec_trace true (ni n) ops)
      | _ -> failwith ("unknown class in: " ^ line))
 let () =
-  Array.iter (fun a -> if a = "pinned" then (variant := pinned; um_set0 := false; uw_canon := false); if a = "fspec" then fspec := true; if a = "nokeep" then keep_label := false; if a = "requeue" then once := false) Sys.argv;
+  Array.iter (fun a -> if a = "pinned" then (variant := pinned; um_set0 := false; uw_canon := false); if a = "fspec" then fspec := true; if a = "codes" then codes := true; if a = "nokeep" then keep_label := false; if a = "requeue" then once := false) Sys.argv;
   let lines = ref [] in
   (try while true do lines := input_line stdin :: !lines done with End_of_file -> ());
   let rec go = function
